@@ -1,5 +1,6 @@
 import Cello.Own
 import Cello.OwnConc
+import Cello.OwnAlias
 import CelloGen.Table
 import Driver.Common
 /- driver for engine `own` (C05): interprets the op file of harness/h_own.c on the ownership model and prints the
@@ -9,8 +10,7 @@ open Cello.Own
 namespace OwnDrv
 
 /-- decimal number, optional leading `-`, at most 9 digits (same rule as `parse_int` in the harness) -/
-def parseInt (s : String) (allowNeg : Bool) : Option Int :=
-  let cs := s.toList
+def parseIntL (cs : List Char) (allowNeg : Bool) : Option Int :=
   let (neg, ds) := match cs with
     | '-' :: r => (true, r)
     | _ => (false, cs)
@@ -19,6 +19,8 @@ def parseInt (s : String) (allowNeg : Bool) : Option Int :=
   else
     let v : Nat := ds.foldl (fun a c => a * 10 + (c.toNat - '0'.toNat)) 0
     some (if neg then -(v : Int) else v)
+
+def parseInt (s : String) (allowNeg : Bool) : Option Int := parseIntL s.toList allowNeg
 
 def parseNat (s : String) : Option Nat := (parseInt s false).map Int.toNat
 
@@ -52,6 +54,43 @@ def parseArg (s : String) : Option Arg :=
   | ['!', 'N'] => some (.wrong .null)
   | '!' :: _ => none
   | _ => (parseNat s).map .pay
+
+/-- reference token (same rule as `parse_ref` in the harness): `@d[i]`, `@d.kK`, `@d.vK`, d of at most two digits -/
+def parseRef (s : String) : Option Ref :=
+  match s.toList with
+  | '@' :: rest =>
+    let ds := rest.takeWhile Char.isDigit
+    let tl := rest.dropWhile Char.isDigit
+    if ds.isEmpty || ds.length > 2 then none
+    else
+      let c : Nat := ds.foldl (fun a ch => a * 10 + (ch.toNat - '0'.toNat)) 0
+      match tl with
+      | '[' :: r =>
+        match r.reverse with
+        | ']' :: ir => (parseIntL ir.reverse true).map (fun i => ⟨c, .elem i⟩)
+        | _ => none
+      | '.' :: 'k' :: r => (parseIntL r false).map (fun k => ⟨c, .key k.toNat⟩)
+      | '.' :: 'v' :: r => (parseIntL r false).map (fun k => ⟨c, .val k.toNat⟩)
+      | _ => none
+  | _ => none
+
+def isRefTok (s : String) : Bool := s.toList.head? == some '@'
+
+/-- key / value argument of an aliased map call: a payload or a reference (wrong-typed objects do not mix with references) -/
+def parseRArg (s : String) : Option RArg :=
+  if isRefTok s then (parseRef s).map .ref else (parseNat s).map .pay
+
+/-- an op line with at least one reference token -/
+def parseAliased (ws : List String) : Option AOp :=
+  match ws with
+  | ["push", c, a] => do pure (.aliased (← parseNat c) (.push (← parseRef a)))
+  | ["append", c, a] => do pure (.aliased (← parseNat c) (.push (← parseRef a)))
+  | ["pushat", c, i, a] => do pure (.aliased (← parseNat c) (.pushAt (← parseInt i true) (← parseRef a)))
+  | ["set", c, i, a] => do pure (.aliased (← parseNat c) (.set (← parseInt i true) (← parseRef a)))
+  | ["rem", c, a] => do pure (.aliased (← parseNat c) (.rem (← parseRef a)))
+  | ["mset", c, k, v] => do pure (.aliased (← parseNat c) (.mset (← parseRArg k) (← parseRArg v)))
+  | ["mrem", c, k] => do pure (.aliased (← parseNat c) (.mrem (← parseRef k)))
+  | _ => none
 
 def argPairs : List Arg → List (Arg × Arg)
   | a :: b :: r => (a, b) :: argPairs r
@@ -341,14 +380,18 @@ def main (args : List String) : IO Unit := do
   for l in lines do
     if Driver.isSkippable l then continue
     nOps := nOps + 1
-    match parseOp (Driver.words l) with
+    let ws := Driver.words l
+    let parsed : Option AOp := if ws.any isRefTok then parseAliased ws else (parseOp ws).map .base
+    match parsed with
     | none => IO.println "O bad-op"
-    | some op =>
-      if !inContract w op then nOut := nOut + 1
-      let (w', o) := step w op
+    | some aop =>
+      if !inContractA w aop then nOut := nOut + 1
+      let (w', o) := stepA w aop
       live := liveDelta live o
       if !o.bad then
-        match shStep w.next sh op with
+        -- the structural shadow runs the plain operation the call amounts to (an aliased call: with the payloads its
+        -- references resolve to before the call — `C05_aliased_as_resolved`)
+        match (aop.lower w).bind (shStep w.next sh) with
         | some sh' => sh := sh'
         | none => IO.println "O model-structural-failure (ub / diverge / NULL dereference in the slot-array or red-black model)"
       IO.println (showObs w' sh live o)
